@@ -184,11 +184,6 @@ func New(ctx context.Context, params ...Parameter) (*Service, error) {
 		return nil, errors.Wrap(err, "failed to add block event handler")
 	}
 
-	// Start tickers, to carry out periodic operations.
-	if err := s.startTickers(ctx, handlingBellatrix); err != nil {
-		return nil, errors.Wrap(err, "failed to start controller tickers")
-	}
-
 	// Run specific actions now so we can carry out duties for the remainder of this epoch.
 	epoch := s.chainTimeService.CurrentEpoch()
 	accounts, validatorIndices, err := s.accountsAndIndicesForEpoch(ctx, epoch)
@@ -199,6 +194,14 @@ func New(ctx context.Context, params ...Parameter) (*Service, error) {
 		log.Info().Int("old_validators", s.activeValidators).Int("new_validators", len(validatorIndices)).Msg("Change in number of active validators")
 		s.activeValidators = len(validatorIndices)
 	}
+
+	// Start tickers, to carry out periodic operations.
+	// This is done once the number of active validators is known, as the accounts refresher
+	// reads it from its own goroutine as soon as it has been started.
+	if err := s.startTickers(ctx, handlingBellatrix); err != nil {
+		return nil, errors.Wrap(err, "failed to start controller tickers")
+	}
+
 	syncCommitteeValidatorIndices, err := s.syncCommitteeIndicesForEpoch(ctx, epoch)
 	if err != nil {
 		return nil, errors.Wrap(err, "failed to obtain sync committee eligible validator indices for the current epoch")
